@@ -180,35 +180,51 @@ Section Pull.
       already created, Wait is gated on [prepared], and a failing Prepare hands its error to the requests that were
       already waiting.  For one request this is the same function; what a second, concurrent request gets is compared by
       [Corr.chk_par]: the result of the download it joined.) *)
+  (** Prepare from the state [old] + run, on a store in which [d] has no blob *)
+  Definition download_from (st : store) (d : digest) (e : benv) (old : dl) : store * dres * dtrace :=
+    (* Prepare: resume from the part records, or HEAD and a fresh layout *)
+    let prep :=
+      match d_parts old with
+      | [] => match be_head e with
+              | None => None
+              | Some total => Some (layout k total, total, true)
+              end
+      | ps => Some (ps, sum_sizes ps, false)
+      end in
+    match prep with
+    | None => (st, DErr, mkTrace true false [])
+    | Some (ps, total, headed) =>
+        (* run: open/create the -partial file, Truncate(Total) *)
+        let f0 := resize (Z.to_nat total) (match d_file old with Some f => f | None => [] end) in
+        if negb (be_direct e) then (set_dl d (mkDl (Some f0) ps) st, DErr, mkTrace headed true [])
+        else
+          let '(ps1, f1, ok, rq) := run_parts k ps f0 (be_chunks e) in
+          let tr := mkTrace headed true rq in
+          if negb ok then (set_dl d (mkDl (Some f1) ps1) st, DErr, tr)
+          else
+            (* every part complete: the part records are removed, then the file gets its digest name *)
+            if fx && negb (N.eqb (H f1) d) then (drop_dl d st, DErr, tr)
+            else (add_blob d f1 (drop_dl d st), DOk, tr)
+    end.
+
+  (** Prepare (since fix b3cba3788): the part records are resumed only if they add up to the size of the -partial
+      file (every record readable is implicit: the model's store holds readable records only); otherwise they are
+      all removed and the download starts over, the -partial file staying until run truncates it *)
+  Definition usable (x : dl) : bool :=
+    match d_parts x with
+    | [] => true
+    | ps => match d_file x with Some f => zlen f =? sum_sizes ps | None => false end
+    end.
+  Definition put_dl (d : digest) (x : dl) (st : store) : store :=
+    match d_file x, d_parts x with None, [] => drop_dl d st | _, _ => set_dl d x st end.
+
   Definition download_blob (st : store) (d : digest) (e : benv) : store * dres * dtrace :=
     match lookup N.eqb d (s_blobs st) with
     | Some _ => (st, DHit, no_trace)                       (* os.Stat succeeds: cache hit, nothing is read *)
     | None =>
         let old := match lookup N.eqb d (s_dl st) with Some x => x | None => mkDl None [] end in
-        (* Prepare *)
-        let prep :=
-          match d_parts old with
-          | [] => match be_head e with
-                  | None => None
-                  | Some total => Some (layout k total, total, true)
-                  end
-          | ps => Some (ps, sum_sizes ps, false)
-          end in
-        match prep with
-        | None => (st, DErr, mkTrace true false [])
-        | Some (ps, total, headed) =>
-            (* run: open/create the -partial file, Truncate(Total) *)
-            let f0 := resize (Z.to_nat total) (match d_file old with Some f => f | None => [] end) in
-            if negb (be_direct e) then (set_dl d (mkDl (Some f0) ps) st, DErr, mkTrace headed true [])
-            else
-              let '(ps1, f1, ok, rq) := run_parts k ps f0 (be_chunks e) in
-              let tr := mkTrace headed true rq in
-              if negb ok then (set_dl d (mkDl (Some f1) ps1) st, DErr, tr)
-              else
-                (* every part complete: the part records are removed, then the file gets its digest name *)
-                if fx && negb (N.eqb (H f1) d) then (drop_dl d st, DErr, tr)
-                else (add_blob d f1 (drop_dl d st), DOk, tr)
-        end
+        if usable old then download_from st d e old
+        else let old' := mkDl (d_file old) [] in download_from (put_dl d old' st) d e old'
     end.
 
   (** ** PullModel *)
